@@ -258,8 +258,149 @@ def source_line(unit, lineno):
     return ""
 
 
-def run_deductive(rep, modules, extra_units=None, only=None):
-    """Generates and discharges all obligations of the lemmas/contracts defined in the sidecar modules."""
+class LightObl(object):
+    """What the parent process keeps of an obligation discharged in a worker."""
+
+    def __init__(self, oid, kind, text, lineno, tail):
+        self.id, self.kind, self.text, self.lineno, self._tail = oid, kind, text, lineno, tail
+
+    def to_smt2(self):
+        return self._tail
+
+
+class LightUnit(object):
+    pass
+
+
+def _build_unit(reg, pid, desc):
+    kind, name, fixed = desc[:3]
+    if kind == "lemma":
+        lem = reg.lemmas[name]
+        u = units.verify_lemma(reg, lem, pid + "/")
+        u.lemma = lem
+    else:
+        c = reg.contracts[name]
+        u = units.verify_function(reg, c, pid + "/", fixed)
+        u.contract = c
+    return u
+
+
+def _unit_worker(args):
+    """Runs in a forked worker: generate the unit's VCs from the real source, discharge them, check vacuity."""
+    pid, desc = args
+    t0 = time.time()
+    reg = api.REG
+    reg.used_transparent = set()
+    reg.used_contracts = set()
+    try:
+        u = _build_unit(reg, pid, desc)
+    except Exception as e:  # engine crash on this unit: reported as a checker error by the parent
+        return {"desc": desc, "crash": "%r\n%s" % (e, traceback.format_exc()[-1500:])}
+    gen_s = time.time() - t0
+    from .symexec import is_nonlinear
+
+    # phase 1: trivially true goals are closed by simplification; the others are first tried on ONE incremental
+    # solver per unit (hypotheses of an obligation are a prefix of the unit's fact list plus its path condition, so
+    # the facts are asserted once, in order, and each obligation is a push/check/pop).  Whatever that does not
+    # prove within a short budget is written out as SMT-LIB text for the fresh-solver portfolio of phase 2.
+    results = {}
+    pending = []
+    scratch = os.environ["PYVC_SCRATCH"]
+    part, nparts = desc[3] if len(desc) > 3 else (0, 1)
+    inc = z3.Solver()
+    inc.set("timeout", 1500)
+    inc.set("smt.mbqi", False)
+    nfacts = 0
+    facts = u.ctx.facts if u.ctx is not None else []
+    for n, o in enumerate(u.obls):
+        if n % nparts != part:
+            continue
+        g = z3.simplify(o.goal)
+        if z3.is_true(g):
+            results[o.id] = {"id": o.id, "status": "unsat", "solver": "simplify", "seconds": 0.0, "model": {}, "rounds": 0, "reason": ""}
+            continue
+        k = o.nfacts
+        t1 = time.time()
+        r = z3.unknown
+        prefix_ok = k <= len(facts) and (k == 0 or o.hyps[k - 1].eq(facts[k - 1])) and (k < 2 or o.hyps[k // 2].eq(facts[k // 2]))
+        if k >= nfacts and prefix_ok:
+            for h in facts[nfacts:k]:
+                inc.add(h)
+            nfacts = k
+            inc.push()
+            for h in o.hyps[k:]:
+                inc.add(h)
+            inc.add(z3.Not(o.goal))
+            try:
+                r = inc.check()
+            except z3.Z3Exception:
+                r = z3.unknown
+            inc.pop()
+        if r == z3.unsat:
+            results[o.id] = {"id": o.id, "status": "unsat", "solver": "z3-" + z3.get_version_string() + " (incremental)", "seconds": time.time() - t1,
+                             "model": {}, "rounds": 0, "reason": ""}
+            continue
+        base = os.path.join(scratch, "%d_%d" % (os.getpid(), abs(hash(o.id)) % (10 ** 12)))
+        with open(base + ".full.smt2", "w") as f:
+            f.write(o.to_smt2())
+        lin = None
+        if any(is_nonlinear(h) for h in o.hyps) and not is_nonlinear(o.goal):
+            lin = base + ".lin.smt2"
+            with open(lin, "w") as f:
+                f.write(o.to_smt2(linear_only=True))
+        pending.append((o.id, lin, base + ".full.smt2"))
+    vac = None
+    finals = [o for o in u.obls if o.kind in ("ensures", "post", "assert")]
+    if finals and not u.error:
+        o = finals[-1]
+        s = z3.Solver()
+        s.set("timeout", 5000)
+        for h in o.hyps:
+            s.add(h)
+        vac = (o.id, str(s.check()))
+    sample = None
+    if u.obls:
+        o = u.obls[len(u.obls) // 2]
+        sample = (o.id, o.to_smt2()[-700:])
+    return {
+        "desc": desc, "unit": u.unit, "kind": u.kind, "error": u.error, "notes": list(u.notes), "used_lemmas": sorted(u.used_lemmas),
+        "src": (list(u.src.lines), u.src.sha, u.src.path) if getattr(u, "src", None) is not None else None,
+        "obls": [(o.id, o.kind, o.text, o.lineno) for o in u.obls], "results": results, "pending": pending, "vacuity": vac, "sample": sample,
+        "used_transparent": sorted(reg.used_transparent), "used_contracts": sorted(reg.used_contracts), "gen_s": gen_s, "phase1_s": time.time() - t0,
+    }
+
+
+def _pool_init(modules, scratch, verif_repo):
+    """Worker initialiser (spawned interpreters): import the tree under check and the sidecar modules."""
+    os.environ["PYVC_SCRATCH"] = scratch
+    if verif_repo:
+        os.environ["VERIF_REPO"] = verif_repo
+    import pyvc  # noqa: F401  (installs the engine extensions)
+
+    frontend.ensure_repo_on_path()
+    for m in modules:
+        importlib.import_module("contracts." + m)
+
+
+def _obl_worker(args):
+    oid, lin, full = args
+    def rd(p):
+        with open(p) as f:
+            return f.read()
+    r = solve._job((oid, (rd(lin) if lin else None, rd(full)), (), None))
+    return r
+
+
+SPLIT_HINT = ("ld_slice", "hq_slice", "parse_sequence", "fragment_parse", "fragment_data", "transform_data", "wavelet_transform", "picture_parse")
+COST_HINT = ("ld_slice", "hq_slice", "parse_sequence", "slice_band", "color_diff_slice_band", "fragment_parse", "fragment_data", "transform_data",
+             "slice_quantizers", "quant_matrix", "S1_", "S3_")
+
+
+def run_deductive(rep, modules, only=None):
+    """Generates and discharges all obligations of the lemmas/contracts defined in the sidecar modules.
+    One worker process per unit (VC generation, SMT, vacuity check); failing units are rebuilt in the parent for triage."""
+    import multiprocessing as mp
+
     t0 = time.time()
     frontend.ensure_repo_on_path()
     frontend.check_identity_decorators()
@@ -267,36 +408,101 @@ def run_deductive(rep, modules, extra_units=None, only=None):
     mods = [importlib.import_module("contracts." + m) for m in modules]
     modnames = set(m.__name__ for m in mods)
     reg = api.REG
-    todo = []
+    descs = []
     for name, lem in reg.lemmas.items():
-        if lem.modname in modnames:
-            todo.append(("lemma", lem))
+        if lem.modname in modnames and (only is None or name in only):
+            descs.append(("lemma", name, None))
     for fq, c in reg.contracts.items():
-        if c.sidecar in modnames and not c.trusted:
-            todo.append(("function", c))
+        if c.sidecar in modnames and not c.trusted and (only is None or c.short in only):
+            if c.split_on:
+                import itertools
+
+                for combo in itertools.product(*[c.str_domains[p] for p in c.split_on]):
+                    descs.append(("function", fq, dict(zip(c.split_on, combo))))
+            else:
+                descs.append(("function", fq, None))
+    if not descs:
+        raise CheckerError("no verification units selected")
+    order = sorted(range(len(descs)), key=lambda i: (0 if any(h in descs[i][1] for h in COST_HINT) else 1, i))
+    jobs = int(os.environ.get("PYVC_JOBS", str(os.cpu_count() or 4)))
+    work = []
+    for i in order:
+        nparts = 1
+        for part in range(nparts):
+            work.append((rep.pid, descs[i] + ((part, nparts),)))
+    import shutil
+    import tempfile
+
+    scratch = tempfile.mkdtemp(prefix="pyvc_")
+    os.environ["PYVC_SCRATCH"] = scratch
+    try:
+        ctxmp = mp.get_context(os.environ.get("PYVC_MP", "fork"))
+        with ctxmp.Pool(max(1, min(jobs, len(work))), initializer=_pool_init, initargs=(list(modules), scratch, os.environ.get("VERIF_REPO"))) as pool:
+            outs = pool.map(_unit_worker, work, chunksize=1)
+        pend = [p for o in outs if "crash" not in o for p in o["pending"]]
+        rep.gen_wall = time.time() - t0
+        if os.environ.get("PYVC_PROFILE"):
+            for o in sorted([o for o in outs if "crash" not in o], key=lambda o: -o["phase1_s"])[:12]:
+                print("PROFILE phase1 %.1fs gen %.1fs obls %d pending %d %s" % (o["phase1_s"], o["gen_s"], len(o["obls"]), len(o["pending"]), o["unit"]))
+            print("PROFILE phase1 wall %.1fs, pending %d" % (rep.gen_wall, len(pend)))
+        solved = {}
+        if pend:
+            with ctxmp.Pool(max(1, min(jobs, len(pend)))) as pool:
+                for r in pool.imap_unordered(_obl_worker, pend, chunksize=4):
+                    solved[r["id"]] = r
+        for o in outs:
+            if "crash" not in o:
+                for (oid, lin, full) in o["pending"]:
+                    o["results"][oid] = solved[oid]
+    finally:
+        shutil.rmtree(scratch, ignore_errors=True)
+    by_desc = {}
+    for o in outs:
+        key = repr(tuple(o["desc"][:3]))
+        if "crash" in o or key not in by_desc:
+            by_desc[key] = o
+        elif "crash" not in by_desc[key]:
+            by_desc[key]["results"].update(o["results"])
+            by_desc[key]["gen_s"] += o["gen_s"]
     ulist = []
-    for kind, x in todo:
-        if kind == "lemma":
-            u = units.verify_lemma(reg, x, rep.pid + "/")
-            u.lemma = x
+    gen_total = 0.0
+    for d in descs:
+        o = by_desc[repr(tuple(d))]
+        if "crash" in o:
+            raise CheckerError("engine crash on %r: %s" % (d, o["crash"]))
+        gen_total += o["gen_s"]
+        failing = [oid for oid, r in o["results"].items() if r["status"] != "unsat"]
+        if failing or o["error"]:
+            # rebuild in the parent: triage needs the z3 terms (ids and names are deterministic)
+            u = _build_unit(reg, rep.pid, d)
+            ids = set(x.id for x in u.obls)
+            if ids != set(o["results"]):
+                raise CheckerError("non-deterministic obligation ids for %r" % (d,))
         else:
-            for u in units.verify_function_cases(reg, x, rep.pid + "/"):
-                u.contract = x
-                ulist.append(u)
-            continue
+            u = LightUnit()
+            u.unit, u.kind, u.error, u.notes, u.used_lemmas = o["unit"], o["kind"], o["error"], o["notes"], set(o["used_lemmas"])
+            u.obls = [LightObl(oid, k, t, ln, (o["sample"][1] if o["sample"] and o["sample"][0] == oid else "")) for (oid, k, t, ln) in o["obls"]]
+            if d[0] == "lemma":
+                u.lemma = reg.lemmas[d[1]]
+            else:
+                u.contract = reg.contracts[d[1]]
+                fs = LightUnit()
+                if o["src"]:
+                    fs.lines, fs.sha, fs.path = tuple(o["src"][0]), o["src"][1], o["src"][2]
+                    u.src = fs
+                else:
+                    u.src = None
+        u.vac = o["vacuity"]
+        rep.results.update(o["results"])
+        reg.used_transparent |= set(o["used_transparent"])
+        reg.used_contracts |= set(o["used_contracts"])
+        if not u.error and not u.obls:
+            raise CheckerError("unit %s generated zero obligations" % u.unit)
         ulist.append(u)
     rep.units.extend(ulist)
-    allobl = [o for u in ulist for o in u.obls]
-    rep.gen_s = time.time() - t0
-    results = solve.discharge(allobl)
-    rep.results.update(results)
-    # vacuity: every unit must have generated obligations, and its precondition must be satisfiable
-    for u in ulist:
-        if u.error:
-            continue
-        if not u.obls:
-            raise CheckerError("unit %s generated zero obligations" % u.unit)
+    rep.gen_s = gen_total
     rep.ngrid = ngrid
+    rep.pool_wall = time.time() - t0
     return ulist
 
 
@@ -305,24 +511,16 @@ class CheckerError(Exception):
 
 
 def vacuity_checks(rep, ulist):
-    """requires satisfiable + a canary (`False` at the exits must not be provable)."""
+    """requires satisfiable + canary: the hypotheses reaching an exit of each unit must not be contradictory
+    (computed in the workers; 'unknown' is tolerated and recorded)."""
     notes = []
     for u in ulist:
-        if u.error or not u.obls:
+        v = getattr(u, "vac", None)
+        if v is None:
             continue
-        # the hypotheses of the last 'post/ensures/assert' obligation describe a complete path to an exit
-        finals = [o for o in u.obls if o.kind in ("ensures", "post", "assert")]
-        if not finals:
-            continue
-        o = finals[-1]
-        s = z3.Solver()
-        s.set("timeout", 5000)
-        for h in o.hyps:
-            s.add(h)
-        r = s.check()
-        if r == z3.unsat:
-            raise CheckerError("vacuity: hypotheses of %s are contradictory (precondition/axioms/invariants unsatisfiable)" % o.id)
-        notes.append((u.unit, str(r)))
+        if v[1] == "unsat":
+            raise CheckerError("vacuity: hypotheses of %s are contradictory (precondition/axioms/invariants unsatisfiable)" % v[0])
+        notes.append((u.unit, v[1]))
     rep.vacuity = notes
 
 
